@@ -259,6 +259,10 @@ class CSSMediaRule(cssrule.CSSRuleRules):
             if ok:
                 self.name = name
                 self._setSeq(nameseq)
+                # replaced rules are detached
+                for r in oldCssRules:
+                    if r not in self._cssRules:
+                        r._parentRule = None
             else:
                 self._media = oldMedia
                 self._cssRules = oldCssRules
